@@ -57,8 +57,10 @@ func c23Lossy(run *kit.Run, base, n int) { //nolint:gocognit,cyclop
 			return
 		}
 		r := run.CaseRand(i)
+		rigVnetMu.Lock()
 		router, err := vnet.NewRouter(&vnet.RouterConfig{CIDR: "10.23.0.0/24", LoggerFactory: rigNullLoggerFactory{}})
 		if err != nil {
+			rigVnetMu.Unlock()
 			run.Inconclusive("lossy:router")
 
 			return
@@ -70,11 +72,13 @@ func c23Lossy(run *kit.Run, base, n int) { //nolint:gocognit,cyclop
 				err = router.AddNet(nets[s])
 			}
 			if err != nil {
+				rigVnetMu.Unlock()
 				run.Inconclusive("lossy:net")
 
 				return
 			}
 		}
+		rigVnetMu.Unlock()
 		if err = router.Start(); err != nil {
 			run.Inconclusive("lossy:router-start")
 
